@@ -105,6 +105,49 @@ def ref_form(a, b, mode):
     return (PROVED if ok and same and mut else REFUTED), "%s -> %s: %s; result is the receiver's address at offset 0: %s; same mutability: %s" % (tstr(tin), tstr(tout), det, same, mut)
 
 
+def check_shapes(ctx, cfg, rule="C11.S"):
+    """The shape the types promise: flatten of M rows of N gives N*M elements of T; `Unflatten<T, NM, N>` gives NM/N rows, each row a
+    GenericArray<T, N> - N, the trait's third parameter, is the width of a row (row-major regrouping is: same memory + this shape). An Output
+    type with the two lengths exchanged type-checks against the same bodies and yields the transposed shape."""
+    from ..tys import tstr as _ts
+    n = 0
+    for key, mode in OWNED + REFS:
+        b = ctx.db(cfg).get(key)
+        if b is None:
+            continue
+        a = ctx.analysis(cfg, key)
+        out = a.local_ty(0)
+        while out is not None and out.get("k") == "ref":
+            out = out["t"]
+        proj = (b.get("sig") or {}).get("output") or {}
+        pargs = [x for x in proj.get("args", []) if x.get("k") != "region"] if proj.get("k") == "alias" else []
+        ok, det = False, "result type %s not understood" % _ts(a.local_ty(0))
+        if out is not None and out.get("k") == "adt" and out["def"].endswith("GenericArray") and len(pargs) == 4:
+            el, ln = [x for x in out["args"] if x.get("k") != "region"]
+            T_, P2, P3 = pargs[1], pargs[2], pargs[3]
+            if mode == "eq":
+                # Flatten<T, N, M>: N*M elements of T
+                want = a.tenv.length(P2) * a.tenv.length(P3)
+                ok = _ts(el) == _ts(T_) and a.tenv.length(ln) == want
+                det = "flatten: %s elements of %s; required %r elements of %s" % (a.tenv.length(ln), _ts(el), want, _ts(T_))
+            else:
+                # Unflatten<T, NM, N>: NM / N rows of GenericArray<T, N>
+                NM_, N_ = a.tenv.length(P2), a.tenv.length(P3)
+                row_ok = el.get("k") == "adt" and el["def"].endswith("GenericArray") and _ts([x for x in el["args"] if x.get("k") != "region"][0]) == _ts(T_) \
+                    and a.tenv.length([x for x in el["args"] if x.get("k") != "region"][1]) == N_
+                rows_ok = a.tenv.length(ln) == _P_div(NM_, N_)
+                ok = bool(row_ok and rows_ok)
+                det = "unflatten: %s rows of %s; required NM/N = %r rows of GenericArray<%s, N> (N = the trait's third parameter, the row width)" % (a.tenv.length(ln), _ts(el), _P_div(NM_, N_), _ts(T_))
+        ctx.ob(rule, key, ok, det, at=b["at"], cfg=cfg)
+        n += 1
+    return n
+
+
+def _P_div(a_, b_):
+    from ..poly import Poly as _P
+    return _P.atom(("div", a_, b_))
+
+
 def check_owned(ctx, cfg, rule="C11.E"):
     """By-value flatten / unflatten: byte provenance - the result is exactly the bytes of self (all of them, from offset 0), self is moved
     and never dropped, no foreign call. unflatten is judged on its documented domain (N divides NM): NM == N * floor(NM / N) is the precondition."""
@@ -156,3 +199,4 @@ def check(ctx):
             ctx.ob("C11.L", key, st if st is not None else UNKNOWN, ldet, at=b["at"], cfg=cfg)
             n += 1
         ctx.floor("C11", "reinterpretation bodies (%s)" % cfg, n, 6)
+        check_shapes(ctx, cfg)
